@@ -1414,8 +1414,14 @@ pub fn search(name: &str, seed: u64) -> Value {
                 (vec!["(defun F3 ((A B A) C) (list A B C))"], "(F3 (list 1 2 3) 4)"),
                 (vec!["(defun mk (X) (list X (+ X 1) (+ X 2)))", "(defun-inline G3 ((P Q P)) (- P Q))"], "(G3 (mk 10))"),
                 (vec!["(defun F4 ((A B A) C) (list A B C))"], "(F4 (q 1 2 3) 4)"),
+                // operators whose opcode is the byte of another operator's name
+                (vec!["(defun M5 (A B) (if A (% B 3) 0))"], "(M5 1 5)"),
+                (vec![], "(% 17 5)"),
+                // a let-bound variable under an if inside a function
+                (vec!["(defun L5 (A) (let ((B (+ A 1))) (if B (* B 2) 0)))"], "(L5 10)"),
+                (vec!["(defun L6 (A) (let ((B (+ A 1))) (* B 2)))"], "(L6 10)"),
             ];
-            for (d, e) in cases.iter() { if let Some(v) = chk_repl(d, e) { return v; } }
+            for (d, e) in cases.iter() { if skipped(&json!({"definitions": d, "expression": e})) { continue; } if let Some(v) = chk_repl(d, e) { return v; } }
             let open_args = ["((1 2))", "((7 8 9))", "(((5 6) 11))"];
             let open_cases: Vec<(Vec<&str>, &str)> = vec![
                 (vec!["(defun swap ((a . b)) (c b a))", "(defun g (n p) (if n (swap p) 0))"], "(g 1 X)"),
@@ -1432,7 +1438,7 @@ pub fn search(name: &str, seed: u64) -> Value {
                 (vec!["(defun pairup (a b) (list a b))", "(defun c (x y) 97)", "(defun both ((@ w (a b))) (pairup w a))"], "(both X)"),
             ];
             for (d, e) in open_cases.iter() { if let Some(v) = chk_repl_open(d, e, &open_args) { return v; } }
-            nf("19 closed REPL sessions and 10 open ones (residual compiled and compared on 3 argument trees, incl. helpers spelled like the operators f / r / c) (arithmetic, recursion, inline, assign destructuring of 3/4/nested patterns, rest args, @ capture, constants, let/let*) reduce to the constant the compiled cl21 program returns")
+            nf("23 closed REPL sessions and 10 open ones (residual compiled and compared on 3 argument trees, incl. helpers spelled like the operators f / r / c) (arithmetic, recursion, inline, assign destructuring of 3/4/nested patterns, rest args, @ capture, constants, let/let*) reduce to the constant the compiled cl21 program returns")
         }
         "classic_meaning" | "symbol_table_for_tree" => {
             // programs without a dialect sigil go through the classic (CLVM-hosted) compiler
@@ -1700,6 +1706,7 @@ pub fn run_input(name: &str, input: &Value) -> Value {
             step_vs_consensus(&bytes(&input["program"]), input["env"].as_u64().unwrap_or(0) as u8).unwrap_or_else(|| nf("input does not violate the contract on this tree")),
         "atom_from_stream" | "sexp_from_stream" | "int_from_bytes" | "get_u32" | "read" => chk_deser(&bytes(&input["bytes"])).unwrap_or_else(|| nf("input does not violate the contract on this tree")),
         "include_files" | "process_include" => chk_include_case(input["include_file"].as_str().unwrap_or(""), input["mode"].as_str().unwrap_or("")).unwrap_or_else(|| nf("input does not violate the contract on this tree")),
+        "repl" => { let defs: Vec<String> = input["definitions"].as_array().map(|a| a.iter().filter_map(|x| x.as_str().map(|s| s.to_string())).collect()).unwrap_or_default(); let dr: Vec<&str> = defs.iter().map(|s| s.as_str()).collect(); chk_repl(&dr, input["expression"].as_str().unwrap_or("")).unwrap_or_else(|| nf("input does not violate the contract on this tree")) }
         "cldb" => chk_cldb(&bytes(&input["program"]), input["env"].as_u64().unwrap_or(0) as u8).unwrap_or_else(|| nf("input does not violate the contract on this tree")),
         "compose_paths" => chk_compose_paths(&big(&input["p"]), &big(&input["q"])).unwrap_or_else(|| nf("input does not violate the contract on this tree")),
         _ => nf("no replayer for this obligation"),
